@@ -105,6 +105,11 @@ let run fence =
                   (match out with SDone -> () | SReported -> diverge "model reports an invalid unwind" line | _ -> diverge "unexpected model outcome" line)))
           | "shrink" :: _, _ -> (match !st with None -> () | Some s -> ignore (do_step s SShrink))
           | "mv" :: _, _ -> if calls <> [] then diverge "a move must not touch the upstream source" line
+          | "mfa" :: _, "done" :: _ ->
+            (* a fresh stack assigned into a moved-from one which is then destroyed: only the fresh stack's block moves *)
+            (match calls with
+             | [UA (sz, Some a); UF (a', sz')] when a = a' && sz = sz' -> ()
+             | _ -> diverge "assigning into a moved-from stack and destroying it must acquire and return exactly the fresh stack's block" line)
           | "destroy" :: _, _ ->
             (match !st with
              | None -> ()
